@@ -2,16 +2,18 @@
 import gen_flw as g
 
 CLAIM = ('Proved in Coq for the model, for every criterion, buffer capacity and append setting and every history of writes / raw '
-         'chunks / flushes / triggers / ticks from an empty directory: under Numbers naming (C01_stream_numbers), NumbersDirect '
-         'naming (C01_stream_numbersdirect) and Timestamps naming (C01_stream_timestamps: local time or UTC, clock not going '
-         'backwards, up to the year 9999, any number of rotations per second - the closed files carry pairwise distinct names '
-         'whose (second, restart position) keys increase in closing order) the files read in writing order hold exactly the '
-         "written bytes, once, in order; for Timestamps naming the oracle's reader (files ordered by parsed infix) is proved to "
-         'read them in exactly that order (C01_reader_timestamps); the stream oracle is proved sound (C01_oracle_sound). '
-         'Hypotheses (shown necessary by counterexamples evaluated in Coq): the suffix does not start with "restart-", neither it nor '
-         'the fixed name part contains a full "<time stamp>.restart-", the suffix does not end in .gz. For TimestampsDirect and custom formats the statement is partial: decided '
-         "on every explored history by the correspondence check plus the oracle applied to the implementation's directory. ")
-THEOREMS = ["C01_stream_numbers", "C01_stream_numbersdirect", "C01_stream_timestamps", "C01_reader_timestamps", "C01_oracle_sound"]
+         'chunks / flushes / triggers / ticks from an empty directory: under Numbers (C01_stream_numbers), NumbersDirect '
+         '(C01_stream_numbersdirect), Timestamps (C01_stream_timestamps) and TimestampsDirect naming '
+         '(C01_stream_timestampsdirect) - for the two time-stamp namings: local time or UTC, clock not going backwards, up to '
+         'the year 9999, any number of rotations per second, the files carry pairwise distinct names whose (second, restart '
+         'position) keys increase in writing order - the files read in writing order hold exactly the written bytes, once, in '
+         "order; for the time-stamp namings the oracle's reader (files ordered by parsed infix) is proved to read them in "
+         'exactly that order (C01_reader_timestamps, C01_reader_timestampsdirect); the stream oracle is proved sound '
+         '(C01_oracle_sound). Hypotheses (shown necessary by counterexamples evaluated in Coq): the suffix does not start with '
+         '"restart-", neither it nor the fixed name part contains a full "<time stamp>.restart-", the suffix does not end in '
+         '.gz. For custom time-stamp formats the statement is partial: decided on every explored history by the correspondence '
+         "check plus the oracle applied to the implementation's directory. ")
+THEOREMS = ["C01_stream_numbers", "C01_stream_numbersdirect", "C01_stream_timestamps", "C01_stream_timestampsdirect", "C01_reader_timestamps", "C01_reader_timestampsdirect", "C01_oracle_sound"]
 TRUSTED = ["modelled, not verified: std BufWriter/File semantics, rename/open/truncate of the OS (Fs/Fs.v), chrono's formatting of timestamps (Time/)"]
 ASSUMPTIONS = ["no I/O faults, no kill, no external modification of the directory during the run",
                "single logging thread, synchronous write modes; cleanup = Never"]
